@@ -1,6 +1,7 @@
 import DeltaModel.Proto
 import DeltaModel.Blame
 import DeltaModel.BlameFormat
+import DeltaModel.BlameFlow
 open Proto
 
 /-!
@@ -180,8 +181,15 @@ def doStream (fs : List String) : String :=
         | [g, l] => do pure ((← strOfField l), (← g.toNat?) != 0)
         | _ => none
       let cfg : StreamCfg := ⟨mode, arith, pal, items, sep, tab, cw, id⟩
-      match stream cfg {} lines with
-      | .error p => pure (panicResp p)
+      -- `handle_blame_line` with the flags of the generated data-flow table (`BlameFlow.streamF`); a table
+      -- with a condition the translator could not read cannot be executed
+      if !BlameFlow.executable then
+        pure ("PANIC " ++ hexOfString ("is_repeat data flow not translated: " ++
+          "; ".intercalate Generated.BlameFlow.opaqueText))
+      else
+      match BlameFlow.streamF cfg (fun _ => false) {} lines with
+      | .error (.base p) => pure (panicResp p)
+      | .error .arith => pure ("PANIC " ++ hexOfString "usize overflow in the is_repeat arithmetic")
       | .ok outs =>
         pure (("ok " ++ " ".intercalate (outs.zip lines |>.map fun (o, (l, _)) =>
           match o with
@@ -249,6 +257,10 @@ def step (line : String) : String :=
   | ["blame.default_items"] =>
     s!"ok {defaultItems.length} " ++ " ".intercalate (defaultItems.map itemCode)
   | ["blame.variant"] => s!"ok {mode} {arith}"
+  | ["blame.flow"] =>
+    -- the generated data flow of `is_repeat`: source text, registers, untranslated conditions
+    s!"ok {hexOfString Generated.BlameFlow.isRepeatSource} {Generated.BlameFlow.numRegs.length} " ++
+      s!"{Generated.BlameFlow.strRegs.length} {Generated.BlameFlow.opaqueText.length}"
   | _ => "ERR"
 
 end BlameDrv
